@@ -7,7 +7,7 @@ CACHE = os.path.join(VERIF, ".cache")
 GUARD = "ALDOR_VERIF"
 SRC_EXT = {".c", ".h", ".as", ".java", ".z", ".y", ".am", ".ac", ".m4", ".mk", ".msg", ".conf",
            ".sh", ".awk", ".sed", ".txt", ".typ", ".in", ".al", ".lsp", ".ax", ".sty", ".tex", ".xml", ".cat"}
-KEEP = 3
+KEEP = max(3, int(os.environ.get("VERIF_TC_KEEP", "3")))   # cached toolchains kept (a mutant campaign beside a sweep raises it)
 
 
 def _list_files():
